@@ -269,6 +269,113 @@ def rule_r1(ctx):
               how="new_attributes is a comprehension", nontrivial=False)
 
 
+COPYING = ("list", "tuple", "dict", "set", "frozenset", "sorted", "copy.copy", "copy.deepcopy")
+
+
+def _is_copy_of(e: ast.expr, name: str) -> bool | None:
+    """True: e builds a new container from `name`; False: e is `name` itself (alias); None: e does not carry `name`."""
+    if isinstance(e, ast.Name):
+        return False if e.id == name else None
+    if isinstance(e, ast.Attribute):
+        return False if norm(e) == name else None
+    if isinstance(e, ast.IfExp):
+        rs = [_is_copy_of(x, name) for x in (e.body, e.orelse)]
+        return False if False in rs else (True if True in rs else None)
+    if isinstance(e, ast.BoolOp):
+        rs = [_is_copy_of(x, name) for x in e.values]
+        return False if False in rs else (True if True in rs else None)
+    if isinstance(e, (ast.ListComp, ast.SetComp, ast.DictComp, ast.GeneratorExp, ast.List, ast.Tuple, ast.Set, ast.Dict, ast.BinOp)):
+        return True if any(norm(x) == name for x in ast.walk(e) if isinstance(x, (ast.Name, ast.Attribute))) else None
+    if isinstance(e, ast.Call):
+        d = dotted_of(e.func) or ""
+        mentions = any(norm(x) == name for a in list(e.args) + [k.value for k in e.keywords] for x in ast.walk(a) if isinstance(x, (ast.Name, ast.Attribute)))
+        if isinstance(e.func, ast.Attribute) and e.func.attr == "copy" and norm(e.func.value) == name:
+            return True
+        return True if mentions and (d in COPYING or d.split(".")[-1] in COPYING) else (None if not mentions else True)
+    return None
+
+
+def _mutable_container_fields(c: ClassInfo, repo) -> set[str]:
+    out = set()
+    for k in repo.mro(c):
+        if not isinstance(k, ClassInfo) or k.external:
+            continue
+        init = k.methods.get("__init__")
+        if init is None:
+            continue
+        for n in own_nodes(init.node):
+            if isinstance(n, (ast.Assign, ast.AnnAssign)) and getattr(n, "value", None) is not None:
+                t = n.targets[0] if isinstance(n, ast.Assign) else n.target
+                if isinstance(t, ast.Attribute) and norm(t.value) == "self":
+                    ann = norm(n.annotation) if isinstance(n, ast.AnnAssign) else ""
+                    v = n.value
+                    if ann.startswith(("list[", "dict[", "set[", "List[", "Dict[")) or isinstance(v, (ast.List, ast.ListComp, ast.Dict, ast.DictComp, ast.Set)) \
+                            or (isinstance(v, ast.Call) and dotted_of(v.func) in ("list", "dict", "set")):
+                        out.add(t.attr)
+    return out
+
+
+def copy_method_aliases(ctx, m: FuncInfo) -> list[tuple]:
+    """Fields of the object returned by copy method `m` that alias the receiver's mutable containers."""
+    repo = ctx.repo
+    c = m.cls
+    me = m.params[0]
+    fields = _mutable_container_fields(c, repo)
+    out = []
+    # (1) objects built field by field (after __new__): new.F = <alias of self.F>
+    for n in own_nodes(m.node):
+        if isinstance(n, ast.Assign) and isinstance(n.targets[0], ast.Attribute) and norm(n.targets[0].value) != me and n.targets[0].attr in fields:
+            for fld in fields:
+                if _is_copy_of(n.value, f"{me}.{fld}") is False:
+                    out.append((n.targets[0].attr, n, f"`{norm(n)}` stores the receiver's own {fld} container in the copy"))
+    # (2) objects built by the constructor: argument self.F bound to a parameter that __init__ stores without copying
+    init = repo.lookup(c, "__init__")
+    for call in (x for x in own_nodes(m.node) if isinstance(x, ast.Call)):
+        k = ctx.typer.ctor_class(m, call)
+        if k is None or k is not c or not isinstance(init, FuncInfo):
+            continue
+        params = init.params[1:]
+        bound = {}
+        for i, a in enumerate(call.args):
+            if i < len(params):
+                bound[params[i]] = a
+        for kw in call.keywords:
+            if kw.arg:
+                bound[kw.arg] = kw.value
+        for p, a in bound.items():
+            for fld in fields:
+                if _is_copy_of(a, f"{me}.{fld}") is False:
+                    for n in own_nodes(init.node):
+                        if isinstance(n, (ast.Assign, ast.AnnAssign)) and getattr(n, "value", None) is not None:
+                            t = n.targets[0] if isinstance(n, ast.Assign) else n.target
+                            if isinstance(t, ast.Attribute) and norm(t.value) == "self" and _is_copy_of(n.value, p) is False:
+                                out.append((t.attr, call, f"{c.name}.__init__ stores its parameter `{p}` as is (`{norm(n)}`) and the copy passes `{norm(a)}`"))
+    return out
+
+
+def rule_r5(ctx):
+    """Copy methods the cloner relies on really copy the mutable containers of their receiver."""
+    ty = ctx.typer
+    seen, n = set(), 0
+    for f in clone_functions(ctx):
+        for c in calls_in(f):
+            if not (isinstance(c.func, ast.Attribute) and c.func.attr in ("copy", "__copy__")):
+                continue
+            for k in ty.recv_classes(f, c.func.value):
+                m = ctx.repo.lookup(k, c.func.attr)
+                if not isinstance(m, FuncInfo) or m.cls is None or m.cls.external or m.key in seen:
+                    continue
+                seen.add(m.key)
+                n += 1
+                al = copy_method_aliases(ctx, m)
+                ctx.check("R1", f"{m.local} (used by {f.local}) copies the receiver's mutable containers", not al, m, al[0][1] if al else m.node,
+                          (f"{m.local} returns an object whose `{al[0][0]}` is the receiver's own container ({al[0][2]}): the clone's "
+                           "object is new but editing that part through the clone changes the original") if al else "",
+                          how="fields stored after __new__ and constructor parameters stored by __init__: alias vs copying expression",
+                          construct=f"{m.local} aliases {al[0][0] if al else ''}")
+    ctx.require(n >= 1, "no package copy method is used by the cloner (Shape.copy expected)")
+
+
 def rule_r2(ctx):
     """Attributes the serializer reads ⊆ attributes the cloner transfers."""
     from . import c03
@@ -372,6 +479,7 @@ def rule_r3_r4(ctx):
 
 
 def run(ctx):
+    rule_r5(ctx)
     rule_r1(ctx)
     rule_r2(ctx)
     rule_r3_r4(ctx)
